@@ -4956,6 +4956,13 @@ func (p *Posix) GetObjectRetention(_ context.Context, bucket, object, versionId 
 }
 
 func (p *Posix) ChangeBucketOwner(ctx context.Context, bucket string, acl []byte) error {
+	// the bucket comes from a query parameter of the admin API, not from
+	// the (validated) request path: it has to be a single path segment,
+	// anything else would be resolved to some other file or directory
+	if bucket == "" || bucket == "." || bucket == ".." || strings.ContainsRune(bucket, '/') {
+		return s3err.GetAPIError(s3err.ErrInvalidBucketName)
+	}
+
 	return p.PutBucketAcl(ctx, bucket, acl)
 }
 
